@@ -59,7 +59,8 @@ struct sthr {
 	unsigned stall_mask;		/* yield kinds that count */
 	int stall_ord;			/* freeze at the stall_ord-th such yield (0 = none planned) */
 	uint32_t stall_len;		/* for this many scheduler steps */
-	uint64_t freeze_until;		/* timed freeze in effect until this step (0 = none) */
+	uint64_t freeze_until;
+	int stall_after, stall_armed;		/* timed freeze in effect until this step (0 = none) */
 	uint64_t yields, relaxes, blocks, accs;
 	int frozen;
 	long prio;
@@ -106,6 +107,7 @@ struct gstate {
 	int ntimed_frozen;
 	int sync_bias;
 	void (*thread_exit_hook)(int);	/* scenario callback, run by every exiting simulated thread after its last destructor */
+	int lib_threads_block_signals;	/* oracle: threads created from library code start with signals blocked */
 	int lib_create_fail;	/* pthread_create() may fail with EAGAIN for callers that are library-internal threads */
 	int thread_stalls;	/* this run: every new thread may get one long planned stall */		/* random walk: preemptions concentrated at synchronisation calls (lock/unlock/futex/...) */
 	uint32_t p_plain;	/* /256 : 0, 16, 64, 256 */
